@@ -21,24 +21,26 @@ FACTORS = [
     ("n", [1, 2, 3]),
     ("box", ["free", "wide", "odd", "lo", "narrow", "fixwide", "ulpwide", "big"]),
     ("x0", ["in", "on", "out"]),
-    ("obj", ["quad", "quad_far", "abs", "lin", "noisy", "none", "quad_nan", "const", "cubic", "quad_nan_out", "zero"]),
+    ("obj", ["quad", "quad_far", "abs", "lin", "noisy", "none", "quad_nan", "const", "cubic", "quad_nan_out", "zero",
+             "rosen"]),
     ("cons", ["none", "lin_le", "lin_eq", "lin_mixed", "ball_le", "ball_eq", "ball_two", "nl_vec", "cubic_le",
               "lin+nl", "lin+cubic", "two_nl", "dict_ineq", "dict_eq_args", "contra_nl", "three_nl", "redund",
-              "cubic_eq"]),
+              "cubic_eq", "contra_lin", "lin_two"]),
     ("scale", [False, True]),
-    ("npt", ["min", "default", "max"]),
-    ("maxfev", [2, 5, 25, 60]),
+    ("npt", ["min", "minplus1", "default", "max"]),
+    ("maxfev", [1, 2, 5, 25, 60]),
     ("maxiter", [None, 1, 3]),
     ("target", [None, 0.375, 2.0 ** 60]),
     ("filter", [None, 1, 3]),
-    ("history", ["off", "on", "size2"]),
-    ("callback", ["none", "xk", "ir", "stop3", "stop9", "nanwrite"]),
+    ("history", ["off", "on", "size2", "size1"]),
+    ("callback", ["none", "xk", "ir", "stop1", "stop3", "stop9", "nanwrite"]),
     ("disp", [False, True]),
     ("debug", [False, True]),
     ("radius", ["default", "half", "tiny0", "big", "huge"]),
-    ("constant", ["default", "slowshrink", "ratios", "notcg", "shiftalways", "penalty", "shortstep", "bo"]),
+    ("constant", ["default", "slowshrink", "ratios", "notcg", "shiftalways", "penalty", "shortstep", "bo", "growth",
+                  "lowres"]),
     ("fault", ["none", "obj_nan0", "obj_pinf2", "obj_ninf4", "obj_huge1", "con_nan3", "con_pinf0", "con_ninf5"]),
-    ("ftol", [None, 0.0, 0.25]),
+    ("ftol", [None, 0.0, 0.25, 2.0 ** 40]),
     ("scribble", [False, True]),
     # exactly scaled copies of the problem (powers of two): variables, objective, constraints, objective offset
     ("xscale", [1.0, 2.0 ** -20, 2.0 ** 20]),
@@ -160,7 +162,8 @@ def case_of(row):
         obj, nan = "quad", "outball"
     opts = {"scale": f["scale"], "maxfev": f["maxfev"], "disp": f["disp"], "debug": f["debug"]}
     if nfree > 0:
-        opts["nb_points"] = {"min": nfree + 1, "default": 2 * nfree + 1, "max": (nfree + 1) * (nfree + 2) // 2}[f["npt"]]
+        opts["nb_points"] = {"min": nfree + 1, "minplus1": min(nfree + 2, (nfree + 1) * (nfree + 2) // 2),
+                             "default": 2 * nfree + 1, "max": (nfree + 1) * (nfree + 2) // 2}[f["npt"]]
     if f["maxiter"]:
         opts["maxiter"] = f["maxiter"]
     if f["target"] is not None:
@@ -171,6 +174,8 @@ def case_of(row):
         opts["store_history"] = True
         if f["history"] == "size2":
             opts["history_size"] = 2
+        elif f["history"] == "size1":
+            opts["history_size"] = 1
     rad = f["radius"]
     if rad == "half":
         opts.update(radius_init=0.5, radius_final=0.25)
@@ -187,9 +192,12 @@ def case_of(row):
               "shiftalways": {"large_shift_factor": 0.0},
               "penalty": {"penalty_increase_threshold": 1.0, "penalty_increase_factor": 1.5},
               "shortstep": {"short_step_threshold": 0.875, "resolution_factor": 1.25},
-              "bo": {"byrd_omojokun_factor": 0.25, "low_radius_factor": 0.875}}[f["constant"]]
+              "bo": {"byrd_omojokun_factor": 0.25, "low_radius_factor": 0.875},
+              "growth": {"increase_radius_factor": 4.0, "increase_radius_threshold": 1.5},
+              "lowres": {"decrease_resolution_factor": 0.5, "moderate_resolution_threshold": 1.5,
+                         "large_resolution_threshold": 2.0}}[f["constant"]]
     cb = {"none": None, "xk": {"sig": "xk", "behav": "passive"}, "ir": {"sig": "ir", "behav": "passive"},
-          "stop3": {"sig": "xk", "behav": "stop", "k": 3}, "stop9": {"sig": "ir", "behav": "stop", "k": 9},
+          "stop1": {"sig": "ir", "behav": "stop", "k": 1}, "stop3": {"sig": "xk", "behav": "stop", "k": 3}, "stop9": {"sig": "ir", "behav": "stop", "k": 9},
           "nanwrite": {"sig": "xk", "behav": "nanwrite"}}[f["callback"]]
     case = alpha.base_case(n, pats, f["x0"], obj, cs if cs is not None else cons, form=form, options=opts, nan=nan,
                            callback=cb, constants=consts)
